@@ -740,6 +740,76 @@ def generate(ctx: Ctx) -> List[Case]:
     return cases
 
 
+def measure_float_roundtrip(seed: int, n: int) -> Dict[str, Any]:
+    """The float hypothesis of the theorems, measured through the library's own converters
+    (`"out"` = str, `"in"` = float of the r8 row): for every non-NaN x, in(out(x)) has the same bits as x
+    (sign of zero included), out(x) == repr(x), and a NaN comes back as a NaN.  Per float class:
+    how many were checked and how many failed."""
+    import random
+
+    from async_upnp_client.const import STATE_VARIABLE_TYPE_MAPPING
+
+    out, inp = STATE_VARIABLE_TYPE_MAPPING["r8"]["out"], STATE_VARIABLE_TYPE_MAPPING["r8"]["in"]
+    rng = random.Random(seed * 7919 + 8)
+    bits = lambda x: struct.pack("<d", x)  # noqa: E731
+    frombits = lambda b: struct.unpack("<d", struct.pack("<Q", b))[0]  # noqa: E731
+
+    def gen_random_bits():
+        while True:
+            x = frombits(rng.getrandbits(64))
+            if x == x and x not in (math.inf, -math.inf):
+                return x
+
+    def gen_17():
+        while True:
+            x = gen_random_bits()
+            if len(repr(x).lstrip("-").split("e")[0].replace(".", "").lstrip("0")) >= 17:
+                return x
+
+    classes: Dict[str, Any] = {
+        "zeros": [0.0, -0.0],
+        "infinities": [math.inf, -math.inf],
+        "extremes": [5e-324, -5e-324, 2.2250738585072014e-308, 2.225073858507201e-308, 1.7976931348623157e308,
+                     -1.7976931348623157e308, math.nextafter(1.0, 2.0), math.nextafter(1.0, 0.0), 2.0 ** 53, 2.0 ** 53 + 2,
+                     0.1, 0.2, 0.1 + 0.2, 1 / 3, 1e22, 1e23, 9007199254740993.0, 5e-324 * 3],
+        "powers_of_two": [2.0 ** k for k in range(-1074, 1024)] + [-(2.0 ** k) for k in range(-1074, 1024, 7)],
+        "powers_of_ten_and_neighbours": [y for k in range(-323, 309) for y in
+                                         (float(f"1e{k}"), math.nextafter(float(f"1e{k}"), math.inf),
+                                          math.nextafter(float(f"1e{k}"), -math.inf))],
+        "subnormal": [math.copysign(frombits(rng.getrandbits(52) or 1), rng.choice([1.0, -1.0])) for _ in range(n)],
+        "random_bit_patterns": [gen_random_bits() for _ in range(n)],
+        "seventeen_significant_digits": [gen_17() for _ in range(n // 4)],
+        "short_decimals": [rng.randrange(-10 ** 6, 10 ** 6) / 10 ** rng.randrange(0, 7) for _ in range(n)],
+        "integers_beyond_2_53": [float(rng.randrange(2 ** 53, 2 ** 80)) for _ in range(n // 4)],
+    }
+    res: Dict[str, Any] = {}
+    for name, xs in classes.items():
+        failed = 0
+        for x in xs:
+            w = out(x)
+            if w != repr(x) or bits(inp(w)) != bits(x):
+                failed += 1
+        res[name] = {"checked": len(xs), "failed": failed}
+    nans = [frombits(0x7FF8000000000000), frombits(0xFFF8000000000000), frombits(0x7FF0000000000001),
+            frombits(0x7FFFFFFFFFFFFFFF), float("nan")] + [frombits(0x7FF0000000000000 | rng.getrandbits(52) | 1) for _ in range(200)]
+    bad = sum(1 for x in nans if not (inp(out(x)) != inp(out(x))))
+    res["nan_comes_back_as_nan"] = {"checked": len(nans), "failed": bad}
+    res["total_checked"] = sum(v["checked"] for v in res.values())
+    res["total_failed"] = sum(v["failed"] for k, v in res.items() if isinstance(v, dict))
+    return res
+
+
+def extra_evidence(ctx: Ctx, cases: List[Case], verdicts) -> Dict[str, Any]:
+    n = 250000 if ctx.thorough else 20000
+    float_ops = sum(1 for c in cases if PYCLASS.get((c.recipe or {}).get("type")) == "float"
+                    for op in (c.recipe or {}).get("ops", []) if op[0] == "rt")
+    return {"float_assumption_measured": {
+        "statement": "for every non-NaN float x: float(str(x)) is bit-identical to x and str(x) == repr(x); NaN -> NaN",
+        "through": "STATE_VARIABLE_TYPE_MAPPING['r8']['out'/'in'] of the code under verification",
+        "classes": measure_float_roundtrip(ctx.seed, n),
+        "float_round_trips_judged_in_cases": float_ops}}
+
+
 def signature(case: Case, verdict) -> str:
     t = case.recipe.get("type") if isinstance(case.recipe, dict) else "?"
     return f"C08 type={t} {verdict.notes[:300]}"
